@@ -53,7 +53,10 @@ func (w *zzWire) send(token string, eflo bool) (int, error) {
 	if eflo {
 		n = 5
 	}
-	o := zz.Fork("call"+strconv.Itoa(w.call)+".req"+strconv.Itoa(len(w.tokens[w.call])-1), n)
+	o := 0
+	if w.call < 2 { // the third call is only there to show its token: it succeeds at once
+		o = zz.Fork("call"+strconv.Itoa(w.call)+".req"+strconv.Itoa(len(w.tokens[w.call])-1), n)
+	}
 	if o == 0 {
 		w.accepted[w.call] = true
 	}
@@ -76,10 +79,10 @@ func (w *zzWire) send(token string, eflo bool) (int, error) {
 // call carries one token; after a success the next call carries a new token.
 // zz:noreplay the SDK clients and the rate limiter are replaced through engine-side overrides
 func ZZ_C16_api_calls() {
-	w := &zzWire{tokens: make([][]string, 2), limiter: make([]bool, 2), accepted: make([]bool, 2)}
+	w := &zzWire{tokens: make([][]string, 3), limiter: make([]bool, 3), accepted: make([]bool, 3)}
 	zz.Override("github.com/AliyunContainerService/terway/pkg/aliyun/client.LogFields", func(l logr.Logger, obj any) logr.Logger { return l })
 	zz.Override("(*github.com/AliyunContainerService/terway/pkg/aliyun/client.RateLimiter).Wait", func(r *RateLimiter, ctx context.Context, name string) error {
-		if zz.Bool("call" + strconv.Itoa(w.call) + ".limiter.refuses") {
+		if w.call < 2 && zz.Bool("call"+strconv.Itoa(w.call)+".limiter.refuses") {
 			w.limiter[w.call] = true
 			return context.DeadlineExceeded
 		}
@@ -119,14 +122,14 @@ func ZZ_C16_api_calls() {
 	})
 
 	a := &OpenAPI{ClientSet: zzClientSet{}, IdempotentKeyGen: zzGen(), RateLimiter: &RateLimiter{}, Tracer: noop.NewTracerProvider().Tracer("zz")}
-	api := zz.Fork("api", 7)
+	api := zz.Shard(7) // one shard per API entry point
 	create := zzCreateOpts("p", 1)
 	n := &NetworkInterfaceOptions{NetworkInterfaceID: "eni-1", IPCount: zz.IntRange("ipcount", 1, 3), IPv6Count: zz.IntRange("ipv6count", 1, 3)}
 	assign4 := &AssignPrivateIPAddressOptions{NetworkInterfaceOptions: n}
 	assign6 := &AssignIPv6AddressesOptions{NetworkInterfaceOptions: n}
 	ctx := context.Background()
-	errs := make([]error, 2)
-	for i := 0; i < 2; i++ {
+	errs := make([]error, 3)
+	for i := 0; i < 3; i++ {
 		w.call = i
 		switch api {
 		case 0:
@@ -145,9 +148,18 @@ func ZZ_C16_api_calls() {
 			_, errs[i] = a.AssignLeniPrivateIPAddress2(ctx, assign4)
 		}
 	}
-	for i := 0; i < 2; i++ {
+	for i := 0; i < 3; i++ {
 		for _, t := range w.tokens[i] {
 			zz.Assert(t != "" && t == w.tokens[i][0], "every request sent within one call carries the same non-empty client token")
+		}
+	}
+	// a token the cloud has executed a request with is spent: no later call carries it again (a failed
+	// call puts its token back once, not twice - the retry uses it up)
+	for i := 0; i < 3; i++ {
+		for j := i + 1; j < 3; j++ {
+			if w.accepted[i] && len(w.tokens[i]) > 0 && len(w.tokens[j]) > 0 {
+				zz.Assert(w.tokens[j][0] != w.tokens[i][0], "a token of an executed call is never carried by a later call")
+			}
 		}
 	}
 	if len(w.tokens[0]) == 0 || len(w.tokens[1]) == 0 {
